@@ -17,6 +17,31 @@ NOT_APPLICABLE = {
 
 # property id -> dict(level, text, note, technique, design_ref, module)
 CLAIMED = {
+    "C01": dict(
+        level="exploration",
+        technique="deterministic simulation: seeded writer-session histories (close/reopen as restart) against an in-memory reference model, chunk-size knob, ddmin-minimised replay",
+        design_ref="DESIGN.md section 4 (C01)",
+        text=("Seeded histories of RTDCWriter sessions (append/replace/reset, path or open h5py.File target, every feature kind, "
+              "every split of the events over calls biased to the chunk length under a per-run CHUNK_SIZE_BYTES knob, logs incl. "
+              "multi-byte and over-long lines, tables, metadata in several representations, rejected calls, context-exit and bare "
+              "close) are executed against the real writer and a reference model; at every verify point the file is read back "
+              "through dclab and through raw h5py and compared exactly (values, dtypes, logs, table cells and attributes, "
+              "metadata types, event count, index)."),
+        note=("Sampling, not enumeration. Trusted: the reference model's dtype/metadata rules (frozen in spec/meta_types.json and "
+              "checks/c01.py), h5py as the independent reading route. Histories keep a feature's dtype constant."),
+    ),
+    "C20": dict(
+        level="exploration",
+        technique="deterministic simulation: seeded production histories (writer partitions, NaN placement, replace, legacy files, CLI tools, export, join, hierarchy refresh) with a summary oracle after every producing step",
+        design_ref="DESIGN.md section 4 (C20)",
+        text=("Seeded production histories create files through every path the statement names (append calls with any partition "
+              "and NaN placement over one or several sessions, replace mode, stripped summaries, compress/repack/condense, "
+              "filtered and unfiltered export with and without basins, join of 2-5 files, hierarchy children with filter changes "
+              "and refreshes); after each step min/max/mean reported by every scalar feature object are compared with the "
+              "NaN-ignoring statistics of the values read from the same object."),
+        note=("Sampling. Mean tolerance 1e-9*max|x| (float64) / 2e-6*max|x| (float32). Producer operations that fail are "
+              "counted and skipped (they belong to C08/C09). Feature objects without min/max/mean (mapped basin proxies) are skipped."),
+    ),
     "C10": dict(
         level="fault_enumeration",
         technique="deterministic simulation: crash-point / I/O-fault enumeration at the h5py+pathlib seam, real process kills in forked children, reference-output oracle",
@@ -36,7 +61,7 @@ CLAIMED = {
 
 # properties whose checks are still under construction (kept in not_applicable with that
 # reason until the check exists, so that MANIFEST.json is valid and honest at every commit)
-PENDING = ["C01", "C02", "C03", "C04", "C06", "C07", "C08", "C09", "C10", "C13", "C14", "C17", "C19", "C20"]
+PENDING = ["C02", "C03", "C04", "C06", "C07", "C08", "C09", "C10", "C13", "C14", "C17", "C19"]
 for _p in PENDING:
     if _p not in CLAIMED:
         NOT_APPLICABLE[_p] = "not claimed yet: check under construction (designed in DESIGN.md section 4; will be claimed once its machinery is committed)"
